@@ -259,7 +259,7 @@ def generate(seed, tier):
                 # initBindings: the WHERE clause is evaluated with that variable already bound (= joined with that one row)
                 req["initb"] = [v, g.choice([_tri(g)[0], _tri(g)[2], _tri(g)[2], ["l", "", None, None], ["l", "0", None, XSD + "integer"], ["l", "false", None, XSD + "boolean"]])]
         requests.append(req)
-    return {"property": ID, "config": {"union": union, "init": init, "subscriber": g.chance(0.15)}, "ops": requests}
+    return {"property": ID, "config": {"union": union, "init": init, "subscriber": g.chance(0.15), "graph_subclass": g.chance(0.3)}, "ops": requests}
 
 
 def _leading_var(p, g):
@@ -330,12 +330,19 @@ def execute(trace, ctx):
         gid = DATASET_DEFAULT_GRAPH_ID if gi is None else T(G[gi])
         Graph(store, gid).add((T(s), T(p), T(o)))
         model.setdefault(R.DEFAULT if gi is None else R.skey(G[gi]), set()).add((R.skey(s), R.skey(p), R.skey(o)))
+    class _AppGraph(Graph):
+        pass
+
     anon_cg = ConjunctiveGraph(store)  # its default context is a blank-node-named graph of its own
     fresh = R.Fresh()
 
     def handle(h):
         """returns (graph object to call update() on, key of the graph that plays the default graph, single_graph?)"""
         if h == "graph":
+            if trace["config"].get("graph_subclass"):
+                # a Graph subclass of the application's own is a single graph like any other
+                ctx.probe("graph-subclass-handle")
+                return _AppGraph(store, DATASET_DEFAULT_GRAPH_ID), DEFK, True
             return Graph(store, DATASET_DEFAULT_GRAPH_ID), DEFK, True
         if h == "view":
             return Graph(store, T(G[0])), R.skey(G[0]), True
